@@ -210,6 +210,34 @@ Proof.
   apply store_text; [now rewrite affinity_char|apply eng_string_text_ok].
 Qed.
 
+(* DecimalStringCol(quantize=True): the value is brought to the declared number of places, both ways *)
+Lemma stored_decstr_quant C size prec neg c e :
+  coltype_ok (TDecStr size prec true) = true -> dec_fits size prec c e = true ->
+  stored_ok C (TDecStr size prec true) (PDec neg c e).
+Proof.
+  intros HT Hfit. cbn in HT.
+  assert (Hp6 : prec <=? 6 = true) by lia. assert (Hps : prec <=? size = true) by lia.
+  assert (H1 : 1 <=? size = true) by lia. assert (H28 : size <=? 28 = true) by lia.
+  destruct (quantize_within size prec neg c e Hps H1 H28 Hfit) as (Hq1 & Hlt2 & Hq2).
+  set (c' := c * pow10 (Z.to_N (e + Z.of_N prec))) in *.
+  assert (Hlt1 : dec_lt_pow10 neg c e (Z.of_N size - Z.of_N prec) = true).
+  { apply lt_pow10_any. unfold dec_fits in Hfit. apply andb_true_iff in Hfit. now destruct Hfit. }
+  assert (Hep : (-6 <= - Z.of_N prec <= 0)%Z) by lia.
+  set (v := PDec neg c e). set (t := dec_eng_string neg c' (- Z.of_N prec)).
+  set (py := PDec neg c' (- Z.of_N prec)).
+  ok4 (PStr t) py (SText t) py. unfold good, expected. cbn [fk_unwrap].
+  assert (Hfrom : from_python C (TDecStr size prec true) v = Ok (PStr t)).
+  { unfold v. cbn [from_python]. unfold v_decstr_from. cbn [v_decimal_from rbind]. unfold decstr_render, dsv_quantize.
+    rewrite Hlt1, Hq1. reflexivity. }
+  assert (Hread : to_python C (TDecStr size prec true) (PStr t) = Ok py).
+  { cbn [to_python]. unfold v_decstr_to. cbn [v_string rbind v_decimal_to]. unfold decimal_of_str, t.
+    rewrite dec_text_roundtrip by exact Hep. cbn [rbind]. unfold dsv_quantize. rewrite Hlt2, Hq2. reflexivity. }
+  assert (Hsame : same v py).
+  { right. unfold v, py. cbn [pyeq]. apply quantized_equal. unfold dec_fits in Hfit. lia. }
+  repeat split; try assumption; try reflexivity.
+  apply store_text; [now rewrite affinity_char|apply eng_string_text_ok].
+Qed.
+
 (* ---------------------------------------------------------------- the success record of run *)
 Lemma run_success C T v w var :
   stored_ok C T v ->
